@@ -14,6 +14,22 @@ and a month end if `d` was one -/
 def intShiftOk (d : Date) (k : Int) (r : Date) : Bool :=
   r.valid && monthToId r == monthToId d + k && (!d.isMonthEnd || r.isMonthEnd)
 
+/-- the DAY of an integer shift, for any start date: the elapsed fraction of the start month `day / days in month`
+carried to the target month and rounded like Python's `round` (half to even) — `add_months`' documented rule
+("fractional part in (0, 1]", `day = round(frac * days_in_month)`); a month end (fraction 1) gives the last day -/
+def scaledDay (d : Date) (M : Int) : Int :=
+  roundHalfEven ((d.d : Rat) / (dim d.y d.m : Rat) * (dim (1970 + M / 12) ((M % 12).toNat + 1) : Rat))
+
+/-- adding the integer `k` to ANY date `d` gave `r`: year and month are exactly `k` calendar months later and the day
+is the scaled day (results from 1970 on; before 1970 only month ends are determined — finding D8) -/
+def intShiftDayOk (d : Date) (k : Int) (r : Date) : Bool :=
+  let M := monthToId d + k
+  r == ⟨1970 + M / 12, (M % 12).toNat + 1, (scaledDay d M).toNat⟩
+
+/-- a cell's month lag, added to its period end, is its evaluation date (the inverse law read through `Cell.dev_lag`):
+`back = add_months(period_end, cell.dev_lag("month"))` -/
+def cellLagInverseOk (ev back : Date) : Bool := back == ev
+
 /-- on month ends the result is completely determined: the last day of month `id d + k` -/
 def monthEndShiftOk (d : Date) (k : Int) (r : Date) : Bool :=
   r.valid && monthToId r == monthToId d + k && r.isMonthEnd
